@@ -140,6 +140,7 @@ class MemStorage:
         self.current_call = -1
         self.fault: dict[str, Any] | None = None  # {"index": k (upload ordinal), "kind": ...}
         self.on_fetch: Callable[[dict[str, Any]], None] | None = None
+        self.noop_fault = False
         self._lock = threading.Lock()
 
     # -- ExternalStorage
@@ -219,3 +220,90 @@ class UploadingClient:
                 content = _build_pointer_request_body(content, dl)
                 self.converted += 1
         return self._inner.post(url, content=content, headers=headers, **kw)
+
+
+# ------------------------------------------------------------------ loopback (thorough): repo's fake_storage + real fetch_url
+
+
+def encode(raw: bytes, content_encoding: str | None) -> bytes:
+    if content_encoding in (None, "", "identity"):
+        return raw
+    if content_encoding == "zstd":
+        import zstandard
+
+        return zstandard.ZstdCompressor(level=1).compress(raw)
+    if content_encoding == "gzip":
+        return gzip.compress(raw, compresslevel=1)
+    raise ValueError(content_encoding)
+
+
+_LOOP: dict[str, Any] = {}
+
+
+def loopback_backend() -> Any:
+    """One fake_storage HTTP service + backend + FetchConfig per process (closed at interpreter exit)."""
+    if not _LOOP:
+        import atexit
+
+        from vgi_rpc.conformance.fake_storage import FakeStorageBackend, serve_in_thread
+        from vgi_rpc.external_fetch import FetchConfig
+
+        base, shutdown = serve_in_thread()
+        _LOOP.update(base=base, backend=FakeStorageBackend(base), fetch_config=FetchConfig(), shutdown=shutdown)
+
+        def _close() -> None:
+            with contextlib.suppress(Exception):
+                _LOOP["fetch_config"].close()
+            with contextlib.suppress(Exception):
+                _LOOP["backend"].close()
+            with contextlib.suppress(Exception):
+                _LOOP["shutdown"]()
+            _LOOP.clear()  # let FetchConfig.__del__ run now, not during interpreter teardown
+
+        atexit.register(_close)
+    return _LOOP
+
+
+class LoopStorage(MemStorage):
+    """Objects live in the repo's fake_storage service on 127.0.0.1; fetches go through the real ``fetch_url``.
+
+    The planned fault is applied when the object is *stored*: bit flips / truncation / trailing bytes hit the stored
+    (possibly compressed) bytes, structural faults rewrite the decoded payload and re-encode it.
+    """
+
+    def __init__(self) -> None:
+        super().__init__()
+        self._loop = loopback_backend()
+        self._remote: dict[str, int] = {}
+
+    def put(self, data: bytes, content_encoding: str | None, origin: str) -> str:
+        with self._lock:
+            n = len(self.uploads)
+        stored = data
+        if self.fault is not None and self.fault["index"] == n:
+            if self.fault["kind"] in ("flip", "truncate", "append"):
+                stored = corrupt(data, self.fault) if data else data
+                # a change of the stored bytes that leaves the decoded payload intact (e.g. trailing bytes after a
+                # compressed frame, a flipped bit in an ignored header field) is not a corruption of the payload
+                with contextlib.suppress(Exception):
+                    self.noop_fault = decode(stored, content_encoding) == decode(data, content_encoding)
+            else:
+                stored = encode(corrupt(decode(data, content_encoding), self.fault), content_encoding)
+        url = self._loop["backend"].upload(stored, pa.schema([]), content_encoding=content_encoding)
+        with self._lock:
+            self.objects[url] = (data, content_encoding)
+            self._remote[url] = n
+            self.uploads.append({"url": url, "call": self.current_call, "n": n, "encoding": content_encoding, "origin": origin, "size": len(data)})
+        return str(url)
+
+    def fetch(self, url: str, config: Any = None, *, url_validator: Callable[[str], None] | None = None) -> bytes:
+        from vgi_rpc.external_fetch import fetch_url as real_fetch
+
+        n = self._remote.get(url, -1)
+        faulty = self.fault is not None and self.fault["index"] == n
+        ev = {"url": url, "n": n, "faulty": faulty}
+        with self._lock:
+            self.fetches.append(ev)
+        if self.on_fetch is not None:
+            self.on_fetch(ev)
+        return real_fetch(url, config, url_validator=url_validator)
